@@ -21,8 +21,9 @@ from typing import Any, Callable, Iterable
 
 ROOT = os.path.dirname(os.path.dirname(os.path.abspath(__file__)))
 REPO = os.environ.get("VERIF_REPO", "/repo")
-OUT = os.path.join(ROOT, "out")
-EVIDENCE_DIR = os.path.join(ROOT, "evidence")
+# development aid: VERIF_OUT redirects run outputs (used when a check is pointed at a scratch tree with VERIF_REPO)
+OUT = os.path.join(os.environ["VERIF_OUT"], "out") if os.environ.get("VERIF_OUT") else os.path.join(ROOT, "out")
+EVIDENCE_DIR = os.path.join(os.environ["VERIF_OUT"], "evidence") if os.environ.get("VERIF_OUT") else os.path.join(ROOT, "evidence")
 KNOWN_FINDINGS = os.path.join(ROOT, "known_findings.json")
 LOCK = os.path.join(ROOT, "obligations.lock.json")
 
